@@ -192,3 +192,72 @@ pub fn fault_case() -> BoxedStrategy<FaultCase> {
         .prop_map(|(kt, n, asyn, scan, verify)| Cfg { kt, n, asyn, scan, verify });
     (cfg, vec(op, 4..=12), prop::bool::weighted(0.3)).prop_map(|(cfg, ops, enospc)| FaultCase { cfg, ops, enospc, only_k: None }).boxed()
 }
+
+// ---------------------------------------------------------------------------------------------
+// E3 cases
+
+use crate::sched::{COp, Mode, Prog, SchedCase};
+
+#[derive(Clone, Debug)]
+pub struct E3Bias {
+    pub put: u32,
+    pub remove: u32,
+    pub rr: u32,
+    pub reads: u32,
+    pub checkpoint: u32,
+    pub abort: u32,
+    pub orphan_ops: u32,
+    pub ns: Vec<u64>,
+    pub max_threads: usize,
+    pub max_ops: usize,
+    pub plant_orphans: bool,
+    pub keys: u8,
+    pub contents: u8,
+}
+
+impl Default for E3Bias {
+    fn default() -> Self {
+        E3Bias { put: 10, remove: 4, rr: 2, reads: 2, checkpoint: 1, abort: 0, orphan_ops: 0, ns: vec![1, 2, 3, 100], max_threads: 3, max_ops: 3, plant_orphans: false, keys: 3, contents: 3 }
+    }
+}
+
+pub fn cop(b: &E3Bias) -> BoxedStrategy<COp> {
+    let keys = b.keys;
+    let cs = b.contents;
+    let mut alts: Vec<(u32, BoxedStrategy<COp>)> = Vec::new();
+    let mut add = |w: u32, s: BoxedStrategy<COp>| {
+        if w > 0 {
+            alts.push((w, s));
+        }
+    };
+    add(b.put, (0..keys, 0..cs).prop_map(|(k, c)| COp::Put { k, c }).boxed());
+    add(b.remove, (0..keys).prop_map(|k| COp::Remove { k }).boxed());
+    add(b.rr, (0..keys, 0..keys).prop_map(|(lo, hi)| COp::RemoveRange { lo, hi }).boxed());
+    add(b.reads, prop_oneof![
+        3 => (0..keys).prop_map(|k| COp::Get { k }),
+        1 => (0..keys).prop_map(|k| COp::GetSize { k }),
+        1 => (0..keys, 0u8..6, 0u8..8).prop_map(|(k, s, e)| COp::GetRange { k, s, e }),
+        2 => (0..keys).prop_map(|k| COp::GetReader { k }),
+    ].boxed());
+    add(b.checkpoint, Just(COp::Checkpoint).boxed());
+    add(b.abort, (0..keys, 0..cs).prop_map(|(k, c)| COp::Abort { k, c }).boxed());
+    add(b.orphan_ops, prop_oneof![2 => Just(COp::DeleteOrphans), 1 => Just(COp::QuarantineOrphans), 1 => (0..cs).prop_map(|c| COp::DeleteOrphan { c })].boxed());
+    Union::new_weighted(alts).boxed()
+}
+
+pub fn prog(b: &E3Bias) -> BoxedStrategy<Prog> {
+    let keys = b.keys;
+    let cs = b.contents;
+    let orphans = if b.plant_orphans { vec(0..cs, 1..3).boxed() } else { Just(Vec::new()).boxed() };
+    (proptest::sample::select(b.ns.clone()), vec((0..keys, 0..cs), 0..4), orphans, vec(vec(cop(b), 1..=b.max_ops), 2..=b.max_threads))
+        .prop_map(|(n, init, orphans, threads)| Prog { n, init, orphans, threads })
+        .boxed()
+}
+
+pub fn sched_case(b: &E3Bias) -> BoxedStrategy<SchedCase> {
+    let mode = prop_oneof![
+        1 => Just(Mode::Walk),
+        1 => (vec(any::<u8>(), 4), vec(0u8..40, 0..3)).prop_map(|(prio, changes)| Mode::Pct { prio, changes }),
+    ];
+    (prog(b), mode, vec(any::<u16>(), 0..70)).prop_map(|(prog, mode, choices)| SchedCase { prog, mode, choices }).boxed()
+}
